@@ -80,8 +80,9 @@ type Case struct {
 	Unregistered   bool     `json:"unregistered"`
 	FrontReturned  bool     `json:"servefront_returned"`
 	BackReturned   bool     `json:"serveback_returned"`
-	AcceptReturned bool     `json:"accept_returned"`   // the lost endpoint's Accept returned (endpoint side)
-	Skipped        bool     `json:"skipped,omitempty"` // not run: the stream was stopped after repeated stranding
+	MidDial        string   `json:"mid_dial,omitempty"` // side-kick-middial: how the dial in flight ended
+	AcceptReturned bool     `json:"accept_returned"`    // the lost endpoint's Accept returned (endpoint side)
+	Skipped        bool     `json:"skipped,omitempty"`  // not run: the stream was stopped after repeated stranding
 	Queued         int      `json:"queued_at_release,omitempty"`
 	Leak           []string `json:"leak,omitempty"`
 	Hang           string   `json:"hang,omitempty"`
@@ -120,6 +121,19 @@ func genTL(seed uint64, i int) Case {
 		c.Steps = []Step{newc("hello", "never"), {Op: "reply", K: 1, Good: true}, {Op: "stall"},
 			{Op: "burst", K: 10, N: 200, Kind: "write"}, {Op: "sever"}}
 		return c
+	case 6: // side dial: the call succeeded, the side connection never comes, the control connection is lost
+		c.Steps = []Step{newc("sidedial", "never"), {Op: "reply", K: 1, Good: true}, {Op: "sever"}}
+		return c
+	case 7: // side dial completed by the delivery; another one in flight when the connection is lost
+		c.Steps = []Step{newc("sidedial", "never"), {Op: "reply", K: 1, Good: true}, {Op: "deliver", K: 1},
+			newc("sidedial", "open"), {Op: "sever"}, newc("sidedial", "never")}
+		return c
+	case 8: // delivery before the reply; a mistyped reply; a cancelled dial
+		c.Steps = []Step{newc("sidedial", "never"), {Op: "deliver", K: 1}, {Op: "reply", K: 1, Good: true},
+			newc("sidedial", "never"), {Op: "reply", K: 2, Good: false},
+			newc("sidedial", "open"), {Op: "reply", K: 3, Good: true}, {Op: "cancel", K: 3},
+			newc("closeall", "never")}
+		return c
 	}
 	if i%97 == 50 { // a few more of both, with varying sizes
 		n := 130 + r.Intn(60)
@@ -133,6 +147,9 @@ func genTL(seed uint64, i int) Case {
 		return c
 	}
 	kinds := []string{"hello", "hello", "read", "closeall"}
+	if r.Intn(4) == 0 { // a scenario in a side mode
+		kinds = []string{"hello", "sidedial", "sidedial", "closeall", "read"}
+	}
 	ctxs := []string{"never", "never", "open"}
 	n := 2 + r.Intn(9)
 	dead, shut := false, false
@@ -143,7 +160,7 @@ func genTL(seed uint64, i int) Case {
 		case x < 5:
 			kind := kinds[r.Intn(len(kinds))]
 			ctx := ctxs[r.Intn(len(ctxs))]
-			if kind != "hello" {
+			if kind != "hello" && kind != "sidedial" {
 				ctx = "never"
 			}
 			st := newc(kind, ctx)
@@ -158,6 +175,9 @@ func genTL(seed uint64, i int) Case {
 			if len(pending) > 0 && !dead {
 				j := r.Intn(len(pending))
 				c.Steps = append(c.Steps, Step{Op: "reply", K: pending[j], Good: r.Intn(4) > 0})
+				if r.Intn(3) > 0 { // (ignored unless K is a side dial that was sent)
+					c.Steps = append(c.Steps, Step{Op: "deliver", K: pending[j]})
+				}
 				pending = append(pending[:j], pending[j+1:]...)
 			} else if k > 0 {
 				c.Steps = append(c.Steps, Step{Op: "reply", K: 1 + r.Intn(k), Good: true})
@@ -197,7 +217,9 @@ func genTL(seed uint64, i int) Case {
 var e2eFaults = []string{"sever-endpoint", "sever-server", "close-endpoint", "kick", "proto-error"}
 
 var e2eFirst = []string{"sever-endpoint", "sever-server", "close-endpoint", "kick", "kick-blackholed",
-	"proto-error", "sever-endpoint", "proto-error"}
+	"proto-error", "side-loss-endpoint", "side-kick-middial"}
+
+var e2eSide = []string{"side-loss-endpoint", "side-loss-server", "side-kick-middial"}
 
 func genE2E(seed uint64, i, j int) Case {
 	r := hx.NewRng(seed*7919 + uint64(j)*104723 + 11)
@@ -208,6 +230,10 @@ func genE2E(seed uint64, i, j int) Case {
 		c.Conns = r.Intn(9)
 		c.Fault = e2eFaults[r.Intn(len(e2eFaults))]
 		c.Hold = r.Intn(4) > 0
+		if j%5 == 3 {
+			c.Fault = e2eSide[r.Intn(len(e2eSide))]
+			c.Conns = r.Intn(5)
+		}
 		if j%37 == 20 { // (costs the 3 s shutdown time-out of the kick even on a sound tree)
 			c.Fault = "kick-blackholed"
 			c.Conns = 1 + r.Intn(3)
@@ -229,6 +255,8 @@ type tcaller struct {
 	seen     bool
 	id       uint64
 	returned bool
+	sess     uint64 // side dial: the session key read off the request
+	key      uint64
 }
 
 var readerFrames = []string{"shanhu.io/g/sniproxy.(*transport).serveRead",
@@ -256,7 +284,14 @@ func runTL(c *Case, tap *rpcx.LogTap) {
 		return
 	}
 	defer pair.Close()
-	cl := sniproxy.VerifNewClient(pair.A, nil)
+	opt := &sniproxy.Options{}
+	for _, st := range c.Steps {
+		if st.Kind == "sidedial" { // side modes: Dial asks for a side connection
+			opt.Siding = true
+			opt.DialWithAddr = c.I%2 == 0
+		}
+	}
+	cl := sniproxy.VerifNewClient(pair.A, opt)
 	reqs := make(chan []byte, 256)
 	var stalled atomic.Bool
 	go func() {
@@ -310,6 +345,16 @@ func runTL(c *Case, tap *rpcx.LogTap) {
 					return id, k
 				}
 			}
+		case 8, 9: // dialSide(2)Request: session, key, token(, tcpAddr)
+			if len(body) >= 16 {
+				for k, tc := range callers {
+					if tc.step.Kind == "sidedial" && !tc.seen {
+						tc.sess = binary.LittleEndian.Uint64(body)
+						tc.key = binary.LittleEndian.Uint64(body[8:])
+						return id, k
+					}
+				}
+			}
 		}
 		return id, -1
 	}
@@ -342,6 +387,14 @@ func runTL(c *Case, tap *rpcx.LogTap) {
 				tc.front.Store(true)
 			case "shutdown":
 				_, err = cl.Call(ctx, 0, "", nil, "", 0)
+			case "sidedial":
+				// endpointClient.Dial in a side mode: the call, then the wait
+				// for the side connection in the mailbox
+				var conn net.Conn
+				conn, err = cl.Dial(ctx, "10.1.2.3:4567")
+				if conn != nil {
+					conn.Close()
+				}
 			}
 			tc.res = sniproxy.VerifCallErrKind(err)
 		}(st)
@@ -358,6 +411,11 @@ func runTL(c *Case, tap *rpcx.LogTap) {
 		if st.Op == "reply" {
 			if tc := callers[st.K]; tc == nil || !tc.seen || severed {
 				continue // nothing to answer, or no connection to send it on
+			}
+		}
+		if st.Op == "deliver" {
+			if tc := callers[st.K]; tc == nil || !tc.seen || tc.step.Kind != "sidedial" {
+				continue
 			}
 		}
 		executed = append(executed, st)
@@ -441,6 +499,12 @@ func runTL(c *Case, tap *rpcx.LogTap) {
 				fs = []rpcx.Field{{K: "err", Nil: true}}
 			case "shutdown":
 				typ, resp = 0, ""
+			case "sidedial":
+				typ, resp = 8, "dialResponse"
+				if opt.DialWithAddr {
+					typ = 9
+				}
+				fs = []rpcx.Field{{K: "u64", U: "7"}, {K: "err", Nil: true}}
 			}
 			if !st.Good {
 				typ, resp, fs = 5, "", nil
@@ -456,6 +520,17 @@ func runTL(c *Case, tap *rpcx.LogTap) {
 			if tap.WaitAny("receive text: "+marker, cl.ServeDone(), waitBound) == "timeout" {
 				c.Hang = "reply: reader did not get to the marker"
 				ok = false
+			}
+		case "deliver":
+			// the side websocket of dial K arrives (Server.serveBackSide)
+			if tc := callers[st.K]; tc != nil && tc.seen {
+				a, b := net.Pipe()
+				go io.Copy(io.Discard, b)
+				cl.DeliverSide(tc.sess, tc.key, a)
+				select {
+				case <-tc.done:
+				case <-time.After(50 * time.Millisecond):
+				}
 			}
 		case "sever":
 			if !severed {
@@ -589,6 +664,7 @@ func (r *relay) close() {
 var e2eFrames = []string{"shanhu.io/g/sniproxy", "shanhu.io/g/netutil"}
 
 func runE2E(c *Case) {
+	side := strings.HasPrefix(c.Fault, "side-")
 	leakBase := rpcx.Goroutines(e2eFrames, []string{"Verif"})
 	var mu sync.Mutex
 	var clients []*sniproxy.VerifClient
@@ -608,14 +684,23 @@ func runE2E(c *Case) {
 		clients = append(clients, cl)
 		mu.Unlock()
 	})
+	var sideArmed atomic.Bool
+	atSide := make(chan struct{}, 4)
+	releaseSide := make(chan struct{})
 	sniproxy.VerifHook = func(point, name string, cl *sniproxy.VerifClient) {
+		if point == "side" && sideArmed.CompareAndSwap(true, false) {
+			// hold the side websocket's handler before it looks the name up
+			atSide <- struct{}{}
+			<-releaseSide
+			return
+		}
 		if point != "served" {
 			return
 		}
 		mu.Lock()
 		first := len(clients) > 0 && clients[0].Same(cl)
 		mu.Unlock()
-		if first && c.Hold && c.Fault != "kick-blackholed" && c.Fault != "proto-error" &&
+		if first && c.Hold && c.Fault != "kick-blackholed" && c.Fault != "proto-error" && !side &&
 			held.CompareAndSwap(false, true) {
 			atServed <- struct{}{}
 			<-release
@@ -647,8 +732,11 @@ func runE2E(c *Case) {
 	}()
 
 	dialVia := func(host string) (*sniproxy.Endpoint, error) {
-		return sniproxy.Dial(context.Background(), &sniproxy.StaticRouter{Host: host},
-			&sniproxy.DialOption{Path: "/site", WithoutTLS: true})
+		opt := &sniproxy.DialOption{Path: "/site", WithoutTLS: true}
+		if side { // side mode: every front connection gets its own websocket
+			opt.TunnelOptions = &sniproxy.Options{Siding: true, DialWithAddr: c.I%2 == 0}
+		}
+		return sniproxy.Dial(context.Background(), &sniproxy.StaticRouter{Host: host}, opt)
 	}
 	dialEP := func() (*sniproxy.Endpoint, error) { return dialVia(ts.Listener.Addr().String()) }
 	serveEcho := func(ep *sniproxy.Endpoint) {
@@ -745,6 +833,50 @@ func runE2E(c *Case) {
 	var ep2 *sniproxy.Endpoint
 	if c.Hang == "" && first != nil {
 		switch c.Fault {
+		case "side-kick-middial":
+			// a front connection starts dialling; its side websocket is held in
+			// the server before the name is looked up; the endpoint is kicked
+			// meanwhile
+			sideArmed.Store(true)
+			midDone := make(chan string, 1)
+			go func() {
+				cfg := tlsCfg.Client.Clone()
+				cfg.ServerName = "site.com"
+				d := &net.Dialer{Timeout: waitBound}
+				fc, err := tls.DialWithDialer(d, "tcp", lis.Addr().String(), cfg)
+				if err != nil {
+					midDone <- "failed"
+					return
+				}
+				fc.Close()
+				midDone <- "connected"
+			}()
+			select {
+			case <-atSide:
+			case <-time.After(waitBound):
+				c.Hang = "side websocket did not reach the server"
+			}
+			ep2, err = dialEP()
+			if err != nil {
+				c.Hang = "kick dial: " + err.Error()
+			} else {
+				go serveEcho(ep2)
+				for t0 := time.Now(); time.Since(t0) < waitBound; time.Sleep(200 * time.Microsecond) {
+					if cur := srv.VerifLookup("/site"); cur != nil && !cur.Same(first) {
+						break
+					}
+				}
+			}
+			close(releaseSide)
+			select {
+			case c.MidDial = <-midDone:
+			case <-time.After(waitBound + 2*time.Second):
+				c.MidDial = "stuck"
+			}
+		case "side-loss-endpoint":
+			ep.VerifSever()
+		case "side-loss-server":
+			first.Sever()
 		case "sever-endpoint":
 			ep.VerifSever()
 		case "sever-server":
@@ -771,7 +903,7 @@ func runE2E(c *Case) {
 				go serveEcho(ep2)
 			}
 		}
-		if c.Hold && c.Fault != "kick-blackholed" && c.Fault != "proto-error" {
+		if c.Hold && c.Fault != "kick-blackholed" && c.Fault != "proto-error" && !side {
 			select {
 			case <-atServed:
 				// hold the server's connection thread before its deferred
@@ -805,6 +937,11 @@ func runE2E(c *Case) {
 
 	// observations
 	end := time.Now().Add(waitBound)
+	if side {
+		// side connections are websockets of their own: they are not
+		// multiplexed over the control connection and may live on
+		end = time.Now().Add(100 * time.Millisecond)
+	}
 	for j := range fronts {
 		select {
 		case <-closedCh[j]:
@@ -895,11 +1032,12 @@ func strandKinds(c *Case) string {
 		return ""
 	}
 	for _, f := range c.FrontClosed {
-		if !f {
+		if !f && !strings.HasPrefix(c.Fault, "side-") {
 			add(true, "front")
 			break
 		}
 	}
+	add(c.MidDial == "stuck", "middial")
 	add(!c.Unregistered, "registered")
 	add(!c.FrontReturned, "servefront")
 	add(!c.BackReturned, "serveback")
